@@ -79,20 +79,7 @@ def binop(I, op, a, b):
             raise Unsupported("list concat of different element types")
         i = z3.Int("cc_i")
         if getattr(I.cur_contract, "named_seqs", False) and not I.spec:
-            # contract option named_seqs: the concatenation is a *named* array constrained pointwise with explicit
-            # triggers (same meaning as the lambda encoding below, but quantifier instantiation can chain through it)
-            res = I.fresh_value(TList(a.et), "cat")
-            p = I.path
-            p.assume(res.n == a.n + b.n)
-            plain = lambda arr: not z3.is_quantifier(arr)
-            pa = [z3.Select(res.arr, i)] + ([z3.Select(a.arr, i)] if plain(a.arr) else [])
-            p.assume(z3.ForAll([i], z3.Implies(z3.And(0 <= i, i < a.n), z3.Select(res.arr, i) == z3.Select(a.arr, i)), patterns=pa))
-            p.assume(z3.ForAll([i], z3.Implies(z3.And(a.n <= i, i < a.n + b.n), z3.Select(res.arr, i) == z3.Select(b.arr, i - a.n)),
-                               patterns=[z3.Select(res.arr, i)]))
-            if plain(b.arr):
-                p.assume(z3.ForAll([i], z3.Implies(z3.And(0 <= i, i < b.n), z3.Select(res.arr, a.n + i) == z3.Select(b.arr, i)),
-                                   patterns=[z3.Select(b.arr, i)]))
-            return res
+            return named_concat(I, a, b)
         arr = z3.Lambda([i], z3.If(i < a.n, z3.Select(a.arr, i), z3.Select(b.arr, i - a.n)))
         return VSeq(arr, a.n + b.n, a.et, "list")
     if isinstance(op, ast.Mod) and isinstance(a, VStr):
@@ -102,6 +89,24 @@ def binop(I, op, a, b):
     if I.spec:
         raise Unsupported("binop %s on %s,%s" % (type(op).__name__, type(a).__name__, type(b).__name__))
     I.raise_exc("TypeError", "unsupported operand types")
+
+
+def named_concat(I, a, b):
+    """contract option named_seqs: a + b as a *named* array constrained pointwise with explicit triggers (same meaning
+    as the lambda encoding, but quantifier instantiation can chain through it)"""
+    i = z3.Int("cc_i")
+    res = I.fresh_value(TList(a.et), "cat")
+    p = I.path
+    p.assume(res.n == a.n + b.n)
+    plain = lambda arr: not z3.is_quantifier(arr)
+    pa = [z3.Select(res.arr, i)] + ([z3.Select(a.arr, i)] if plain(a.arr) else [])
+    p.assume(z3.ForAll([i], z3.Implies(z3.And(0 <= i, i < a.n), z3.Select(res.arr, i) == z3.Select(a.arr, i)), patterns=pa))
+    p.assume(z3.ForAll([i], z3.Implies(z3.And(a.n <= i, i < a.n + b.n), z3.Select(res.arr, i) == z3.Select(b.arr, i - a.n)),
+                       patterns=[z3.Select(res.arr, i)]))
+    if plain(b.arr):
+        p.assume(z3.ForAll([i], z3.Implies(z3.And(0 <= i, i < b.n), z3.Select(res.arr, a.n + i) == z3.Select(b.arr, i)),
+                           patterns=[z3.Select(b.arr, i)]))
+    return res
 
 
 def seq_copy(s):
@@ -1690,6 +1695,11 @@ def seq_method(I, o, name, args, kw):
         if isinstance(other, VEmptyList):
             return VNone()
         old, n0 = o.arr, o.n
+        if getattr(I.cur_contract, "named_seqs", False) and not I.spec:
+            r = named_concat(I, VSeq(old, n0, o.et), other)
+            o.arr, o.n = r.arr, r.n
+            o.writeback()
+            return VNone()
         o.arr = z3.Lambda([i], z3.If(i < n0, z3.Select(old, i), z3.Select(other.arr, i - n0)))
         o.n = z3.simplify(n0 + other.n)
         o.writeback()
